@@ -71,6 +71,17 @@ def explore(ctx):
                 lines.append("enc e%d kind=resp max=1048576 protocols=%s wef=%d seq=%d meth=%s arg=%s tags=- err=%s res=%s script=feed/%s;waithandlers/1;finish/0/%s/%s;waitwrites/1"
                              % (k, protos, 1 if wef else 0, seq, me.hex(), T(arg), T(err), T(res), cf.hex(), T(res), errspec))
             k += 1
+        # size-targeted notifications: content lengths on both sides of every length-prefix width boundary
+        targets = [127, 128, 129, 255, 256, 257, 65535, 65536, 65537] if tier != "quick" else [127, 128, 129, 255, 256, 257, 65535, 65536, 65537]
+        for tgt in targets:
+            me = b"p.m"
+            for n in range(max(0, tgt - 12), tgt + 1):
+                c = frames.content([2, ("s", me), ("b", b"\x00" * n)], mp.Chooser())
+                if len(c) == tgt:
+                    arg = ("b", bytes((i * 7 + tgt) & 0xff for i in range(n)))
+                    lines.append("enc e%d kind=notify max=1048576 protocols=70:6d seq=0 meth=%s arg=%s tags=- script=notify/c1/%s/%s/-/0" % (k, me.hex(), T(arg), me.hex(), T(arg)))
+                    k += 1
+                    break
         for _ in range(n_dec):
             ch = mp.Chooser(rng, 1, 2) if rng.chance(3, 4) else mp.Chooser()
             c, kind, exp = frames.gen_msg(rng, ch, depth=3, with_expect=True)
